@@ -34,6 +34,7 @@ EXPLANATION = (
     "reference/classical_semantics.json; the reported fault line is the counter read before execution."
     ' C04.M: the memory primitives (Arrays, RegisterGroup, SharedMemory) store exactly once what they are given and declare fresh arrays. C04.F: inside an executor method no state effect precedes an explicit raise/assert on any path (a fault leaves the state untouched). C04.Z: no truthiness test on an int-typed value.'
     ' C04.Q: the in-use-set bookkeeping rules of C13.U evaluated under this property (qalloc / qfree bookkeeping). C04.K: memoisation keys cover the arguments.'
+    ' Executed abstractly (checker-side AST interpreter, nothing of the repository runs): _handle_branch_instr for the six predicates over a 4x4 grid of operand values with two applications (counter = target iff the reference predicate holds, else +1; other counters untouched); the seven state accessors (_get/_set_register, _expand_array_part incl. undefined index registers, _get/_set_array_entry, _get_array, _initialize_array) on modelled register banks and array stores of two applications; _compute_binary_classical_instr for the four classes over a grid and four moduli; RegisterGroup.__getitem__.'
 )
 LEVEL_TEXT = (
     "Static analysis, partial: per-handler and per-instruction-class clauses (dispatch, PC-once, None guards, predicates, operand-role "
